@@ -17,7 +17,7 @@ import sys
 import xml.etree.ElementTree as ET
 
 ROOT = os.path.dirname(os.path.dirname(os.path.abspath(__file__)))
-SEED = "/tmp/seed"
+SEED = os.environ.get("SEED_DIR", "/tmp/seed")
 
 
 ONE_THREAD = {"OMP_WAIT_POLICY": "PASSIVE", "GOMP_SPINCOUNT": "0", "OMP_NUM_THREADS": "1", "OPENBLAS_NUM_THREADS": "1", "MKL_NUM_THREADS": "1", "NUMEXPR_NUM_THREADS": "1"}
@@ -52,10 +52,10 @@ def affected_test_files(patch_path):
 
 
 def suite_ok(wt, tag, patch_path):
-    xml = f"/tmp/seed/junit_{tag}.xml"
+    xml = f"{SEED}/junit_{tag}.xml"
     env = dict(os.environ, PYTHONPATH=wt)
     files, patched = affected_test_files(patch_path)
-    sh(f"/venv/bin/python -m pytest -q -p no:cacheprovider --timeout=900 --continue-on-collection-errors --junitxml={xml} {' '.join(files)} > /tmp/seed/suite_{tag}.log 2>&1",
+    sh(f"/venv/bin/python -m pytest -q -p no:cacheprovider --timeout=900 --continue-on-collection-errors --junitxml={xml} {' '.join(files)} > {SEED}/suite_{tag}.log 2>&1",
        cwd=wt, env=env, timeout=14400)
     b = json.load(open("/root/.vp/BASELINE.json"))
     stable = set(x.replace(" ", "") for x in b["stable_pass"])
@@ -84,7 +84,7 @@ def main():
         out = {"id": cid, "property": pid}
         if a.phase in ("checks", "noml") and os.path.exists(os.path.join(d, "eval.json")):
             out = json.load(open(os.path.join(d, "eval.json")))
-        wt = f"/tmp/seed/wt_{cid}_{a.phase}"
+        wt = f"{SEED}/wt_{cid}_{a.phase}"
         sh(f"git -C /repo worktree remove --force {wt}")
         rc, o = sh(f"git -C /repo worktree add -f {wt} HEAD")
         try:
@@ -97,9 +97,9 @@ def main():
             if a.phase == "noml":
                 miss = out.get("suite_missing") or []
                 if miss and all(m.startswith("test.install.test_no_ml::") for m in miss):
-                    xml = f"/tmp/seed/junit_{cid}_noml.xml"
+                    xml = f"{SEED}/junit_{cid}_noml.xml"
                     sh(f"/venv/bin/python -m pytest -q -p no:cacheprovider --timeout=900 --junitxml={xml} test/install/test_no_ml.py test/unit/adversarial/test_adversarial_mitigation.py "
-                       f"> /tmp/seed/suite_{cid}_noml.log 2>&1", cwd=wt, env=dict(os.environ, PYTHONPATH=wt), timeout=3600)
+                       f"> {SEED}/suite_{cid}_noml.log 2>&1", cwd=wt, env=dict(os.environ, PYTHONPATH=wt), timeout=3600)
                     ok_ids = set()
                     for tc in ET.parse(xml).getroot().iter("testcase"):
                         if not any(ch.tag in ("failure", "error", "skipped") for ch in tc):
